@@ -48,6 +48,8 @@ impl Lattice {
         self.len_char = len_char;
         self.eos = None;
         self.insert_bos();
+        #[cfg(feature = "verif")]
+        crate::verif::record(crate::verif::Event::LatticeReset { len_char });
     }
 
     fn reset_vec<T>(data: &mut Vec<Vec<T>>, new_len: usize) {
@@ -88,6 +90,8 @@ impl Lattice {
     {
         let (min_idx, min_cost) =
             self.search_min_node(start_node, BOS_EOS_CONNECTION_ID, connector);
+        #[cfg(feature = "verif")]
+        crate::verif::record(crate::verif::Event::EosInserted { start_node });
         self.eos = Some(Node {
             word_id: u32::MAX,
             lex_type: LexType::default(),
@@ -114,6 +118,12 @@ impl Lattice {
         debug_assert!(start_node <= start_word);
         debug_assert!(start_word < end_word);
         let (min_idx, min_cost) = self.search_min_node(start_node, word_param.left_id, connector);
+        #[cfg(feature = "verif")]
+        crate::verif::record(crate::verif::Event::NodeInserted {
+            start_node,
+            start_word,
+            end_word,
+        });
         self.ends[end_word].push(Node {
             word_id: word_idx.word_id,
             lex_type: word_idx.lex_type,
@@ -137,6 +147,12 @@ impl Lattice {
         for (i, left_node) in self.ends[start_node].iter().enumerate() {
             debug_assert!(left_node.is_connected_to_bos());
             let conn_cost = connector.cost(left_node.right_id, left_id);
+            #[cfg(feature = "verif")]
+            crate::verif::record(crate::verif::Event::CostEval {
+                right_id: left_node.right_id,
+                left_id,
+                cost: conn_cost,
+            });
             let new_cost = left_node.min_cost + conn_cost;
             // Depending on the order of tie-breaking, the result can be different from MeCab.
             // Using <= (not <) will produce results identical to MeCab in most case (empirically).
@@ -179,6 +195,31 @@ impl Lattice {
         let r_node = self.eos.as_ref().unwrap();
         for l_node in &self.ends[self.len_char()] {
             counter.add(r_node.left_id, l_node.right_id, 1);
+        }
+    }
+}
+
+#[cfg(feature = "verif")]
+impl Lattice {
+    pub(crate) fn verif_dump(&self) -> crate::verif::LatticeDump {
+        let conv = |n: &Node| crate::verif::NodeDump {
+            word_id: n.word_id,
+            lex_type: n.lex_type,
+            start_node: n.start_node,
+            start_word: n.start_word,
+            left_id: n.left_id,
+            right_id: n.right_id,
+            min_idx: usize::from(n.min_idx),
+            min_cost: n.min_cost,
+        };
+        let n = (self.len_char + 1).min(self.ends.len());
+        crate::verif::LatticeDump {
+            len_char: self.len_char,
+            ends: self.ends[..n]
+                .iter()
+                .map(|v| v.iter().map(conv).collect())
+                .collect(),
+            eos: self.eos.as_ref().map(conv),
         }
     }
 }
